@@ -146,11 +146,12 @@ func (m MIC) MarshalText() ([]byte, error) {
 type MHDR struct {
 	MType MType `json:"mType"`
 	Major Major `json:"major"`
+	rfu   byte  // the RFU bits as received (so that the MIC is validated over the received MHDR)
 }
 
 // MarshalBinary marshals the object in binary form.
 func (h MHDR) MarshalBinary() ([]byte, error) {
-	return []byte{(byte(h.MType) << 5) | (byte(h.Major) & 0x03)}, nil
+	return []byte{(byte(h.MType) << 5) | ((h.rfu & 0x07) << 2) | (byte(h.Major) & 0x03)}, nil
 }
 
 // UnmarshalBinary decodes the object from binary form.
@@ -159,6 +160,7 @@ func (h *MHDR) UnmarshalBinary(data []byte) error {
 		return errors.New("lorawan: 1 byte of data is expected")
 	}
 	h.MType = MType(data[0] >> 5)
+	h.rfu = (data[0] >> 2) & 0x07
 	h.Major = Major(data[0] & 0x03)
 	return nil
 }
